@@ -158,6 +158,34 @@ inductive All2 {α β : Type} (R : α → β → Prop) : List α → List β →
   | nil : All2 R [] []
   | cons {a b as bs} : R a b → All2 R as bs → All2 R (a :: as) (b :: bs)
 
+theorem All2.left {α β : Type} {P : α → β → Prop} {xs : List α} {ys : List β} (h : All2 P xs ys) :
+    ∀ x ∈ xs, ∃ y ∈ ys, P x y := by
+  induction h with
+  | nil => intro x hx; cases hx
+  | cons hp _ ih =>
+    intro x hx
+    rcases List.mem_cons.mp hx with rfl | hx
+    · exact ⟨_, by simp, hp⟩
+    · obtain ⟨y, hy, hxy⟩ := ih x hx
+      exact ⟨y, by simp [hy], hxy⟩
+
+theorem All2.right {α β : Type} {P : α → β → Prop} {xs : List α} {ys : List β} (h : All2 P xs ys) :
+    ∀ y ∈ ys, ∃ x ∈ xs, P x y := by
+  induction h with
+  | nil => intro x hx; cases hx
+  | cons hp _ ih =>
+    intro y hy
+    rcases List.mem_cons.mp hy with rfl | hy
+    · exact ⟨_, by simp, hp⟩
+    · obtain ⟨x, hx, hxy⟩ := ih y hy
+      exact ⟨x, by simp [hx], hxy⟩
+
+theorem All2.length_eq {α β : Type} {P : α → β → Prop} {xs : List α} {ys : List β} (h : All2 P xs ys) :
+    xs.length = ys.length := by
+  induction h with
+  | nil => rfl
+  | cons _ _ ih => simp [ih]
+
 /-- `(offset, size)` of consecutive records starting at `off` -/
 def layout (off : Nat) : List (List Line) → List (Nat × Nat)
   | [] => []
